@@ -12,15 +12,25 @@ def runs(tier, seed, replay):
 
 CONFIG = {
     "runs": runs,
-    "status": "full under no_dead, refuted without it (known finding K7): "
-              "C05_core_sound[_WF] (the syntactic core is sound for every WF circuit), C05_core_syntactic (exact under WFQ + no_dead: "
-              "In l (calculate_core C n) <-> every model contains l), C05_core_dead_nil_correct; "
-              "C05_core_refuted_without_no_dead (c2d circuit with a false node: core [2], semantic core [-1, 2]); "
+    "status": "full (after the repair F22 of finding K7; no hypothesis on dead nodes is left): "
+              "C05_core_exact / C05_core_exact_WF (for every WF(Q) circuit with 0 < root_count, dead (zero-count) branches or not: "
+              "In l (calculate_core C n) <-> every model contains l), C05_core_exact_list (as a list: calculate_core C n = "
+              "filter in_all_models (-n..n ascending), in_all_models = the truth-table test), C05_core_sound[_WF] (soundness for every WF "
+              "circuit, also without a model), C05_core_complete, C05_core_dead_nil_correct; C05_core_unsat_is_v0 (root count 0: the "
+              "repaired code answers like the old code, the syntactic core over all literal nodes). calculate_core = the repaired "
+              "algorithm (one downward sweep that marks the nodes reachable from the root through non-zero counts and collects the "
+              "literals of marked literal nodes; core = live and complement not live); calculate_core_v0 = the code before F22, kept for "
+              "C05_core_v0_sound_WF, C05_core_v0_syntactic (exact under no_dead), C05_core_no_dead_is_v0 and the K7 witness "
+              "C05_core_refuted_without_no_dead (c2d circuit with a false node: calculate_core_v0 = [2], semantic core [-1, 2]; a "
+              "statement about _v0 only, the repaired calculate_core gives [-1, 2]: ex_k7). "
               "C05_core_dead_with_assumptions (with the C02 theorem discharged: for every non-empty in-range A and every Clean state the "
               "report is exactly the literals, in loop order, contained in every model containing A; both polarities when none does); "
               "C05_candidate_criterion / C05_candidate_dead_criterion / C05_MCA_split for the per-candidate form. "
+              "The repaired core feeds reduce_query / the unsat shortcut of every query: C02 (root count), C03 (sat), C06 / C07 (temps on "
+              "the reachable part of the vector), C09 (sub-root SAT calls at reachable nodes) are re-proved for it. "
               "Correspondence: every request compared with the extracted model and judged by the truth table; c2d inputs that keep a "
-              "false node are a separate generator class (they reproduce K7 on every run)",
+              "false node are a separate generator class - an ordinary compared class since F22 (signature core:c2d-false-node stays as "
+              "a detector without a finding line; against /repo without F22 it fires on every run)",
     "assumptions": ["assumption literals within 1..n",
-                    "no_dead (all cached counts positive) is established by the d4 loader's false-elimination; it is evaluated per loaded input, not proved for all files"],
+                    "0 < root_count (the model has at least one configuration) for exactness; with root count 0 the report is the syntactic core of the code before F22 (C05_core_unsat_is_v0)"],
 }
